@@ -21,10 +21,17 @@ type scriptedResolver struct {
 	answers map[string]string // record name -> CNAME target ("" = error)
 	seen    []string
 	flip    map[string][]string // record name -> successive answers (one per lookup)
+	latency func() time.Duration
 }
 
 func (s *scriptedResolver) LookupCNAME(ctx context.Context, host string) (string, error) {
 	simrt.Yield("h:resolver")
+	if s.latency != nil {
+		// a DNS lookup takes a while: lookups of several validations overlap
+		if d := s.latency(); d > 0 {
+			simrt.Sleep(d, "h:resolver-latency")
+		}
+	}
 	s.mu.Lock()
 	defer s.mu.Unlock()
 	s.seen = append(s.seen, host)
@@ -107,6 +114,13 @@ func (w *World) checkC29(res *scriptedResolver) {
 		token string
 		stamp int64
 	}
+	// successful validations with their invocation / return stamps (to tell a take-over by a
+	// concurrent validation from one that happened after the first binding was in place)
+	type okEv struct {
+		host, token string
+		call, ret   int64
+	}
+	var oks []okEv
 	var mu sync.Mutex
 	var binds []bindEv
 	readBinding := func(host string) string {
@@ -140,20 +154,40 @@ func (w *World) checkC29(res *scriptedResolver) {
 			allow(h, other)
 		}
 	}
+	slowDNS := r.Chance(0.6)
+	res.latency = func() time.Duration {
+		if !slowDNS {
+			return 0
+		}
+		return time.Duration(simrt.Env().Intn(400)) * time.Millisecond
+	}
+	defer func() { res.latency = nil }()
+	burst := r.Chance(0.5)
 	var wg sync.WaitGroup
 	for ci, c := range w.clients {
 		wg.Add(1)
 		simrt.GoGroup("h:"+c.Name, "", func() {
 			defer wg.Done()
 			for k := 0; k < 3+r.Intn(3); k++ {
-				simrt.Sleep(time.Duration(120+r.Intn(300))*time.Millisecond, "h:pace")
+				if burst {
+					// all clients come at (almost) the same moments
+					simrt.Sleep(time.Duration(150+r.Intn(20))*time.Millisecond, "h:pace")
+				} else {
+					simrt.Sleep(time.Duration(120+r.Intn(300))*time.Millisecond, "h:pace")
+				}
 				h := hosts[r.Intn(len(hosts))]
 				sp := spellings[h][r.Intn(len(spellings[h]))]
 				if sp != h {
 					simrt.Probe("non-canonical-spelling")
 				}
 				req := &protocol.ValidateRequest{Hostname: sp, Proof: w.proof(c, h, 0)}
+				callStamp := simrt.Stamp()
 				_, err := w.call(c, r.Intn(3), "AcmeValidate", req)
+				if err == nil {
+					mu.Lock()
+					oks = append(oks, okEv{host: h, token: string(c.Token.GetToken()), call: callStamp, ret: simrt.Stamp()})
+					mu.Unlock()
+				}
 				now := readBinding(h)
 				mu.Lock()
 				binds = append(binds, bindEv{host: h, token: now, stamp: simrt.Stamp()})
@@ -176,7 +210,17 @@ func (w *World) checkC29(res *scriptedResolver) {
 			continue
 		}
 		if f, ok := first[b.host]; ok && f != b.token {
-			w.res.Violate("C29", "rebound-to-other-client", "hostname %q was bound to the client with token %q and later to %q through validation", b.host, f, b.token)
+			// did the two clients' successful validations overlap in time (both passed the binding
+			// check before either had saved), or did the second one start after the first had returned?
+			class := "rebound-to-other-client/after-binding"
+			for _, x := range oks {
+				for _, y := range oks {
+					if x.host == b.host && y.host == b.host && x.token == f && y.token == b.token && y.call < x.ret && x.call < y.ret {
+						class = "rebound-to-other-client/concurrent-validations"
+					}
+				}
+			}
+			w.res.Violate("C29", class, "hostname %q was bound to the client with token %q and later to %q through validation", b.host, f, b.token)
 		} else if !ok {
 			first[b.host] = b.token
 		}
